@@ -146,17 +146,24 @@ def syncMacro (m : Machine) (u : UEnv) (e : Ev) (s : St) : St :=
   transientLoop (hooksFlagged u m) .sync m u m.maxIterations
     (processEvent (hooksFlagged u m) .sync m u e (emit ("#recv:" ++ e.type) s))
 
-/-- the events `drainLoop` dequeues and hands to `on_event_received` / `_process_event`, in order -/
-def drainLog (m : Machine) (u : UEnv) : Nat → St → List Ev
-  | 0, _ => []
-  | budget + 1, s =>
+/-- the entries `drainLoop` dequeues and hands to `on_event_received` / `_process_event`, in order, with
+    their mark (same recursion as `drainLoop`; a cut hands nothing over: the marked head is discarded with
+    the other marked entries) -/
+def drainLogQ (m : Machine) (u : UEnv) : Nat → Nat → St → List QEv
+  | 0, _, _ => []
+  | fuel + 1, chained, s =>
     match s.queue with
     | [] => []
     | q :: rest =>
       if s.status ≠ "running" then []
+      else if syncTrips m chained q then drainLogQ m u fuel 0 (syncPurge s)
       else
-        q.ev :: (if (syncMacro m u q.ev { s with queue := rest }).err.isSome then []
-                 else drainLog m u budget (syncMacro m u q.ev { s with queue := rest }))
+        q :: (if (syncMacro m u q.ev { s with queue := rest }).err.isSome then []
+              else drainLogQ m u fuel (chainedNext chained q) (syncMacro m u q.ev { s with queue := rest }))
+
+/-- the events `drainLoop` receives, in order -/
+def drainLog (m : Machine) (u : UEnv) (fuel chained : Nat) (s : St) : List Ev :=
+  (drainLogQ m u fuel chained s).map (·.ev)
 
 /-- the run loop hands the dequeued entry `q` to `on_event_received` / `_process_event`: always, unless
     the chain breaker is tripped AND `q` is itself self-raised (an external event is never dropped) -/
